@@ -47,7 +47,9 @@ def run(ctx, monitors):
     rng = random.Random(ctx.seed)
     # 1. design level, exhaustive over all crash points
     ctx.model_check("Persist", "MC_Persist.cfg", coverage=not q, workers=4)
+    ex = ctx.exhaustive
     r = ctx.model_check("Persist", "MC_Persist_c13.cfg", expect_ok=False, workers=4)
+    ctx.exhaustive = ex   # (TLC stops at the expected counterexample; the other configs are complete)
     ctx.notes.append("MC_Persist_c13 (whole statement of C13 on the design as coded): %s - a model counterexample, "
                      "decided on the real code by the replay below" % (r.violated or "holds"))
     ctx.model_check("Persist", "MC_Persist_fixed.cfg", workers=4)
@@ -60,11 +62,9 @@ def run(ctx, monitors):
         raise core.Inconclusive("Sim_Persist printed %d runs, expected the standard one" % len(scen))
     std = list(scen.values())[0]
     jobs = [{"name": STD_NAME, "script": std["script"], "points": _select(std["points"], rng, q), "scheme": ""}]
-    model_points = {STD_NAME: std["points"]}
     if not q:
         for sch in ("pedersen-bls-unchained", "bls-unchained-g1-rfc9380"):
             jobs.append({"name": STD_NAME + "-" + sch, "script": std["script"], "points": sorted(std["points"]), "scheme": sch})
-            model_points[jobs[-1]["name"]] = std["points"]
         fam = ctx.model_check("Sim_Persist", "Sim_Persist_family.cfg", workers=1, timeout=600)
         fs = _scenarios_from(fam)
         keys = sorted(fs)
@@ -72,10 +72,13 @@ def run(ctx, monitors):
         without = [k for k in keys if "leavecb" not in k]
         rng.shuffle(with_cb)
         rng.shuffle(without)
-        for i, k in enumerate(with_cb[:4] + without[:4]):
+        for i, k in enumerate(with_cb[:12] + without[:12]):
             jobs.append({"name": "family-%d" % i, "script": fs[k]["script"], "points": sorted(fs[k]["points"]), "scheme": ""})
-            model_points[jobs[-1]["name"]] = fs[k]["points"]
-        ctx.notes.append("runs of the family printed by TLC: %d, replayed: 8 (seeded choice)" % len(keys))
+        ctx.notes.append("runs of the family printed by TLC: %d, replayed: 24 (seeded choice, half of them ending in leaveNetwork)" % len(keys))
+    if getattr(ctx, "replay", None):
+        # --replay <file written for an earlier violation>: only that run and crash point
+        jobs = [json.loads(l) for l in open(ctx.replay) if l.strip()]
+        ctx.notes.append("replay of %s" % ctx.replay)
     inp = os.path.join(ctx.work, "persist-scenarios.ndjson")
     write_scripts(inp, jobs)
     npoints = sum(len(j["points"]) for j in jobs)
@@ -98,17 +101,29 @@ def run(ctx, monitors):
             if '"ev":"Restart"' in line and '"refusesToStart"' in line:
                 ctx.sample({"stage": "persist", "restart": line.strip()[:600]})
                 break
-    # the model's prediction for every crash point vs. what the real restart found (information
-    # only: the trace spec already compares with RestartOf on the observed disk)
     drift = []
+    tlines = open(trace).read().splitlines()
+    byname = {j["name"]: j for j in jobs}
+    known = [k for k in core.load_known() if k.get("property") == ctx.prop and k.get("status") == "known"]
     for a in alarms:
         d = a.get("detail", {})
         if a["mon"] in monitors:
             sig = {"stage": "persist", "mon": a["mon"], "cause": d.get("cause"), "group": d.get("group"),
                    "share": d.get("share"), "outcome": d.get("outcome")}
+            rp = None
+            if not any(core.sig_matches(k["signature"], sig) for k in known):
+                # a replay script: the run and the one crash point, for check.py C13 --replay <file>
+                try:
+                    k = json.loads(tlines[int(a["line"]) - 1])["j"]
+                    job = dict(byname[a["scenario"]], points=[k])
+                    os.makedirs(os.path.join(core.ROOT, "replays"), exist_ok=True)
+                    rp = os.path.join(core.ROOT, "replays", "%s-%s-k%d-%s.ndjson" % (ctx.prop, a["scenario"], k, a["mon"]))
+                    write_scripts(rp, [job])
+                except Exception:
+                    rp = None
             ctx.alarm(sig, "crash consistency: monitor %s failed at trace line %s (%s; crash %s, group file %s, share %s, restart %s; run %s)"
                       % (a["mon"], a["line"], d.get("what"), d.get("cause"), d.get("group"), d.get("share"),
-                         d.get("outcome"), a["scenario"]))
+                         d.get("outcome"), a["scenario"]), replay=rp)
         elif a["mon"] == "Conformance":
             drift.append(a)
     if drift:
